@@ -378,6 +378,22 @@ func sendErrorReturnsError(c *cx, id string) {
 		c.r.Check(id, f, "sendError returns an error", "P: every return of sendError yields the error it was given or an error established non-nil", rs.Pos(), ok, why)
 	}
 	c.r.Floor(id, "returns of sendError", n, 3)
+	// a stream error is returned as such: where the error that sendError was
+	// given is a stream error (errors.As established), every return hands back
+	// that error, not the error of trying to send or echo it (a received error
+	// without a defined condition cannot be encoded again; the peer that sent
+	// an error has usually gone)
+	ns := 0
+	for _, rs := range g.Returns {
+		pt, _ := g.Where(rs)
+		if okAs, _ := g.Dominated(pt, "errors.As(p0,*)"); !okAs {
+			continue
+		}
+		ns++
+		okr := len(rs.Results) == 1 && f.Norm(rs.Results[0], &pt) == "p0"
+		c.r.Check(id, f, "a stream error is returned as such", "P: in the arm of errors.As(err, &stream.Error{}) every return yields the error that was given", rs.Pos(), okr, "returns another error in place of the stream error: Serve's caller cannot tell that the session ended with a stream error")
+	}
+	c.r.Floor(id, "returns in the stream error arm of sendError", ns, 1)
 }
 
 // staleNotification (C18.10/C06.12): Channel.depart is a one-slot notification
